@@ -132,7 +132,7 @@ def cp_unit(nins):
         ex.abstract["nx.utils.pairwise"] = lambda ex_, so, a, kw: list(zip(a[0], a[0][1:]))
         pairs = [(i, j) for i in range(nins) for j in range(i + 1, nins)]
         for loads, twice in itertools.product(itertools.product((False, True), repeat=nins), (False, True)):
-            if twice and nins == 3:
+            if twice and nins >= 3:
                 continue
             for emask in itertools.product((False, True), repeat=len(pairs)):
                 lat = [z3.Real(f"lat{i}") for i in range(nins)]
@@ -213,9 +213,276 @@ def cp_unit(nins):
 
 def units(tier):
     return [
+        Unit("C04/get_critical_path(any kernel length, any library path)", cp_any_unit, "P", [(KDG, "KernelDG.get_critical_path")], timeout=1200),
         Unit("C04/get_critical_path/1-instruction", cp_unit(1), "Pb", [(KDG, "KernelDG.get_critical_path")]),
         Unit("C04/get_critical_path/2-instructions", cp_unit(2), "Pb", [(KDG, "KernelDG.get_critical_path")]),
         Unit("C04/get_critical_path/3-instructions", cp_unit(3), "Pb", [(KDG, "KernelDG.get_critical_path")], timeout=1200),
+    ] + ([Unit("C04/get_critical_path/4-instructions", cp_unit(4), "Pb", [(KDG, "KernelDG.get_critical_path")], timeout=6000, tier="thorough")] if tier == "thorough" else []) + [
         bounded_unit("C04/pipeline-vs-longest-chain-oracle", "dg_oracle", [(KDG, "KernelDG.get_critical_path"), (KDG, "KernelDG.create_DG")],
                      extra_args=["C04"], timeout=1500),
     ]
+
+
+# ------------------------------------------------------------------ unbounded kernels (P): what the code adds to the library call
+def cp_any_unit(res):
+    """P: KernelDG.get_critical_path (real code) for kernels of ANY length and ANY path returned by the library:
+    (1) the graph handed to dag_longest_path is the dependency graph plus, for EVERY kernel line, an edge line -> sink whose
+        weight is the line's execution latency (latency without load stage if there is one) - so the weight of a path that
+        ends in the sink is 'edge latencies + execution latency of the last instruction';
+    (2) whatever path P the library returns (A: a path of that graph of maximal weight), after the call every kernel line l
+        carries latency_cp = sum of the weights of the path edges leaving a node of l (load stage l.1 and l itself) - 0 for
+        lines off the path -, for ANY previous latency_cp (second call, other analyses of the same instruction forms);
+    (3) the lines returned are exactly the kernel lines, in order, whose number is on the path (after dropping the sink and
+        adding the instruction of a trailing load node);
+    (L) with distinct line numbers the per-line values of the marked lines add up to the weight of the path."""
+    ex = Engine([REPO + "/" + f for f in ("osaca/parser/instruction_form.py", KDG)])
+    fn, _ = ex.find_method("KernelDG", "get_critical_path")
+    ex.index_loops(fn)
+    I_, R_, B_ = z3.IntSort(), z3.RealSort(), z3.BoolSort()
+    N, M = z3.Ints("klen path_len")
+    lines = z3.Function("line_no", I_, I_)
+    lat = z3.Function("lat", I_, R_)
+    lwl = z3.Function("lwl", I_, R_)
+    has_lwl = z3.Function("has_lwl", I_, B_)
+    pnode = z3.Function("lib_path_node", I_, R_)  # the library's path; the sink is encoded as node -1
+    w = z3.Function("edge_weight", R_, R_, R_)
+    SINK = z3.RealVal(-1)
+    cp0 = z3.Array("latency_cp_before", I_, R_)  # per line number
+    heap = {"cp": cp0}
+    ins = Schema("cpins", ["InstructionForm"], {"line_number": ("int",), "latency": ("real",), "latency_wo_load": ("custom", None)})
+    ins.fn["line_number"] = lines
+    ins.fn["latency"] = lat
+    ins.fn["latency_wo_load"] = lambda ex_, ref: SNum(lwl(ref.t), False) if ex_.branch(has_lwl(ref.t)) else None
+    st = {}
+
+    class NodeVal:
+        def __init__(self, t):
+            self.t = t
+
+        def sym_eq(self, ex_, other):
+            if isinstance(other, str):
+                return SBool(self.t == SINK) if other == "sink" else False
+            if isinstance(other, NodeVal):
+                return SBool(self.t == other.t)
+            return SBool(self.t == real_term(other))
+
+        def sym_int(self, ex_, base):
+            return SNum(z3.ToInt(self.t), True)
+
+    def nv(x):
+        if isinstance(x, NodeVal):
+            return x.t
+        if isinstance(x, str):
+            return SINK if x == "sink" else None
+        return real_term(x)
+
+    class PathList:
+        def __init__(self, seq):
+            self.seq = seq
+
+        def sym_truthy(self, ex_):
+            return ex_.branch(self.seq.length > 0)
+
+        def sym_getitem(self, ex_, i):
+            return ex_.getitem(self.seq, i)
+
+        def sym_getslice(self, ex_, lo, hi, step):
+            if lo is None and hi == -1 and step is None:
+                return PathList(SymSeq(self.seq.length - 1, self.seq.at))
+            raise Unsupported("path slice")
+
+        def sym_method(self, ex_, name, args, kw):
+            if name == "append":
+                old, v = self.seq, NodeVal(nv(args[0]))
+                self.seq = SymSeq(old.length + 1, lambda i, old=old, v=v: NodeVal(z3.If(i < old.length, old.at(i).t, v.t)))
+                return None
+            raise Unsupported("path." + name)
+
+        def sym_binop(self, ex_, op, other, reflected):
+            if isinstance(other, list) and len(other) == 1 and not reflected:
+                old, v = self.seq, NodeVal(nv(other[0]))
+                return PathList(SymSeq(old.length + 1, lambda i, old=old, v=v: NodeVal(z3.If(i < old.length, old.at(i).t, v.t))))
+            raise Unsupported("path operator")
+
+        def sym_contains(self, ex_, item):
+            q = z3.FreshInt("q")
+            return SBool(z3.Exists([q], z3.And(0 <= q, q < self.seq.length, self.seq.at(q).t == nv(item))))
+
+    class EdgesG:
+        def sym_getitem(self, ex_, k):
+            a, b = k
+            return {"latency": SNum(w(nv(a), nv(b)), False)}
+
+    class DG:
+        def __init__(self, copy=False):
+            self.copy = copy
+
+        def sym_havoc(self, ex_, tag):
+            return self
+
+        def sym_method(self, ex_, name, args, kw):
+            if name == "copy":
+                return DG(True)
+            if name == "add_edge" and self.copy:
+                st["added"] = st.get("added", 0) + 1
+                i = st["k"]
+                ex_.oblige("sink-edge/line->sink-with-execution-latency", z3.And(real_term(args[0]) == z3.ToReal(lines(i)), z3.BoolVal(args[1] == "sink"),
+                                                                              real_term(kw["latency"]) == z3.If(has_lwl(i), lwl(i), lat(i))))
+                return None
+            raise Unsupported("DiGraph." + name)
+
+        def sym_getattr(self, ex_, attr):
+            return EdgesG() if attr == "edges" else PyMethod(self, attr)
+
+    class KLine:  # kernel line i: attributes by functions, latency_cp in the ghost heap (by line number)
+        def __init__(self, i):
+            self.i = i
+
+        def sym_getattr(self, ex_, attr):
+            if attr == "line_number":
+                return SNum(lines(self.i), True)
+            if attr == "latency":
+                return SNum(lat(self.i), False)
+            if attr == "latency_wo_load":
+                return SNum(lwl(self.i), False) if ex_.branch(has_lwl(self.i)) else None
+            if attr == "latency_cp":
+                return SNum(z3.Select(heap["cp"], lines(self.i)), False)
+            raise Unsupported("line." + attr)
+
+        def sym_setattr(self, ex_, attr, v):
+            if attr != "latency_cp":
+                raise Unsupported("line." + attr)
+            heap["cp"] = z3.Store(heap["cp"], lines(self.i), real_term(v))
+
+    class NodeObj:  # the kernel line with a given number: latency_cp lives in the ghost heap
+        def __init__(self, line):
+            self.line = line
+
+        def sym_getattr(self, ex_, attr):
+            if attr == "latency_cp":
+                return SNum(z3.Select(heap["cp"], self.line), False)
+            raise Unsupported("node." + attr)
+
+        def sym_setattr(self, ex_, attr, v):
+            if attr != "latency_cp":
+                raise Unsupported("node." + attr)
+            heap["cp"] = z3.Store(heap["cp"], self.line, real_term(v))
+
+    # ghost: P' = the path the two loops run over; PS(l, k) = sum of w(P'_j, P'_{j+1}) over j < k with int(P'_j) = l
+    PS = z3.Function("partial_sum", I_, I_, R_)
+
+    class SinkLoop:
+        def on_body_start(self, ex_, env, k):
+            st["k"], st["added"] = k, 0
+
+        def on_body_end(self, ex_, env, k):
+            ex_.oblige("sink-edge/one-per-kernel-line", st["added"] == 1)
+
+    class ResetLoop:  # for instruction_form in self.kernel: instruction_form.latency_cp = 0
+        def havoc(self, ex_, env):
+            heap["cp"] = z3.FreshConst(z3.ArraySort(I_, R_), "cp_reset")
+
+    def onpath(seq, ln, upto):
+        q = z3.FreshInt("q")
+        return z3.Exists([q], z3.And(0 <= q, q < upto, z3.ToInt(seq.at(q).t) == ln))
+
+    def iskline(ln, upto):
+        q = z3.FreshInt("q")
+        return z3.Exists([q], z3.And(0 <= q, q < upto, lines(q) == ln))
+
+    def reset_inv(ex_, env, k):
+        ln = z3.Int("ln")
+        return z3.ForAll([ln], z3.Select(heap["cp"], ln) == z3.If(iskline(ln, k), z3.RealVal(0), z3.Select(cp0, ln)))
+
+    class AccLoop:
+        def sym_for(self, ex_, s, it, env, cls):
+            st["P1"] = st["pairs_of"]  # the path the accumulation runs over (sink appended by the code)
+            ex_.loop_hooks[("get_critical_path", 2)] = AccBody()
+            try:
+                return ex_.sym_for(s, it, False, 0, env, cls)
+            finally:
+                ex_.loop_hooks[("get_critical_path", 2)] = self
+
+    class AccBody:
+        def havoc(self, ex_, env):
+            heap["cp"] = z3.FreshConst(z3.ArraySort(I_, R_), "cp_acc")
+
+        def on_body_start(self, ex_, env, k):
+            P1, ln = st["P1"], z3.Int("ln")
+            nxt = z3.If(k + 1 < P1.length, P1.at(k + 1).t, SINK)
+            # instance of the recursive definition of PS at this position (for every line)
+            ex_.assume(z3.ForAll([ln], PS(ln, k + 1) == PS(ln, k) + z3.If(z3.ToInt(P1.at(k).t) == ln, w(P1.at(k).t, nxt), 0)))
+
+    def acc_inv(ex_, env, k):
+        ln = z3.Int("ln")
+        return z3.ForAll([ln], z3.Select(heap["cp"], ln) == z3.If(iskline(ln, N), PS(ln, k), z3.Select(cp0, ln)))
+
+    def pairwise(ex_, so, a, kw):
+        seq = a[0].seq  # = path + [sink]
+        st["pairs_of"] = SymSeq(seq.length - 1, seq.at)  # the path itself
+        return SymSeq(seq.length - 1, lambda i: (seq.at(i), seq.at(i + 1)))
+
+    ex.loop_hooks[("get_critical_path", 0)] = SinkLoop()
+    ex.loop_hooks[("get_critical_path", 1)] = ResetLoop()
+    ex.loop_hooks[("get_critical_path", 2)] = AccLoop()
+    ex.invariants[("get_critical_path", 0)] = lambda ex_, env, k: z3.BoolVal(True)
+    ex.invariants[("get_critical_path", 1)] = reset_inv
+    ex.invariants[("get_critical_path", 2)] = acc_inv
+    ex.abstract["nx.algorithms.dag.is_directed_acyclic_graph"] = lambda ex_, so, a, kw: True
+    ex.abstract["nx.algorithms.dag.dag_longest_path"] = lambda ex_, so, a, kw: PathList(SymSeq(M, lambda i: NodeVal(pnode(i))))
+    ex.abstract["nx.utils.pairwise"] = pairwise
+    ex.abstract["_get_node_by_lineno"] = lambda ex_, so, a, kw: NodeObj(num_term(a[0])[0])
+
+    def run():
+        heap["cp"] = cp0
+        st.clear()
+        kernel = SymSeq(N, lambda i: KLine(i))
+        r = ex.call_method("KernelDG", "get_critical_path", SObj("KernelDG", kernel=kernel, dg=DG()), [])
+        ex.extra.update(cp=heap["cp"], P1=st.get("P1"))
+        return r
+
+    q, ln = z3.Ints("q ln")
+    # A (shape of a library path): nodes are line numbers >= 1, load nodes l + 0.1, or the sink (-1), which can only come last
+    shape = z3.ForAll([q], z3.Implies(z3.And(0 <= q, q < M), z3.Or(z3.And(pnode(q) == SINK, q == M - 1), z3.And(pnode(q) >= 1, z3.Or(pnode(q) == z3.ToReal(z3.ToInt(pnode(q))), pnode(q) == z3.ToReal(z3.ToInt(pnode(q))) + z3.Q(1, 10))))))
+    i_ = z3.Int("i_")
+    nodes_are_lines = z3.ForAll([q], z3.Implies(z3.And(0 <= q, q < M, pnode(q) != SINK), z3.Exists([i_], z3.And(0 <= i_, i_ < N, lines(i_) == z3.ToInt(pnode(q))))))
+    paths = ex.explore(run, [N >= 0, M >= 0, shape, nodes_are_lines, z3.ForAll([ln], PS(ln, 0) == 0)])
+
+    def post(v, p):
+        P1, cp = p.extra["P1"], p.extra["cp"]
+        if P1 is None or not (isinstance(v, SymSeq) and getattr(v, "filter_of", None)):
+            return False
+        g = [z3.ForAll([ln], z3.Select(cp, ln) == z3.If(iskline(ln, N), PS(ln, P1.length), z3.Select(cp0, ln)))]
+        _, idx, L, pred = v.filter_of
+        j = z3.Int("j")
+        onq = lambda x: z3.Exists([q], z3.And(0 <= q, q < P1.length, P1.at(q).t == z3.ToReal(x)))
+        g.append(z3.ForAll([j], z3.Implies(z3.And(0 <= j, j < N), pred(j) == onq(lines(j)))))
+        # P1 = the library's path without the sink, plus the instruction of a trailing load node
+        last = pnode(M - 1)
+        g.append(z3.Implies(z3.And(M >= 1, last == SINK), z3.Or(P1.length == M - 1, P1.length == M)))
+        return z3.And(g)
+
+    res.add_paths(paths, post, kind="post")
+    # (L) double counting: for distinct line numbers, sum over kernel lines of PS(line, k) = sum of the first k edge weights,
+    # provided every path node belongs to a kernel line.  S2(k, n) = sum_{i<n} PS(lines(i), k); W(k) = sum_{j<k} w_j
+    S2 = z3.Function("S2", I_, I_, R_)
+    W = z3.Function("W", I_, R_)
+    wj = z3.Function("w_j", I_, R_)
+    nodeline = z3.Function("node_line", I_, I_)  # int(P_j)
+    k, n, i = z3.Ints("k n i")
+    ax = [z3.ForAll([k], S2(k, 0) == 0), z3.ForAll([k, n], z3.Implies(n >= 0, S2(k, n + 1) == S2(k, n) + PS(lines(n), k))),
+          W(0) == 0, z3.ForAll([k], z3.Implies(k >= 0, W(k + 1) == W(k) + wj(k))),
+          z3.ForAll([ln], PS(ln, 0) == 0), z3.ForAll([ln, k], z3.Implies(k >= 0, PS(ln, k + 1) == PS(ln, k) + z3.If(nodeline(k) == ln, wj(k), 0)))]
+    idxof = z3.Function("index_of_line", I_, I_)
+    distinct = [z3.ForAll([i], z3.Implies(z3.And(0 <= i, i < N), idxof(lines(i)) == i)),
+                z3.ForAll([k], z3.Implies(k >= 0, z3.And(0 <= idxof(nodeline(k)), idxof(nodeline(k)) < N, lines(idxof(nodeline(k))) == nodeline(k))))]
+    # inner induction over n (fixed k >= 0): S2(k+1, n) = S2(k, n) + [index of P_k's line < n] * w_k
+    claim = lambda n_: S2(k + 1, n_) == S2(k, n_) + z3.If(idxof(nodeline(k)) < n_, wj(k), 0)
+    res.add("lemma/inner-base", ax + distinct + [k >= 0], claim(0), label="L")
+    res.add("lemma/inner-step", ax + distinct + [k >= 0, n >= 0, n < N, claim(n)], claim(n + 1), label="L")
+    # outer induction over k using the inner claim at n = N
+    # outer base S2(0, N) = W(0) = 0: induction over n of S2(0, n) = 0
+    res.add("lemma/outer-base/n=0", ax, S2(0, 0) == W(0), label="L")
+    res.add("lemma/outer-base/step", ax + [n >= 0, S2(0, n) == W(0)], S2(0, n + 1) == W(0), label="L")
+    res.add("lemma/outer-step", ax + distinct + [k >= 0, N >= 0, S2(k, N) == W(k), claim(N)], S2(k + 1, N) == W(k + 1), label="L")
+    return res
